@@ -18,7 +18,7 @@ def run(ck):
     thorough = ck.tier == "thorough"
     ck.tlc_model("Metabase", "Metabase_t.cfg" if thorough else "Metabase_tq.cfg", timeout=3000)
     binp = ck.gobuild("meta")
-    inv = ["TraceNotStuck", "C02_CountersMatchRecount"]
+    inv = ["TraceNotStuck", "C02_CountersMatchRecount", "C02_ObjectsNumberExact"]
     if ck.replay:
         doc = json.load(open(ck.replay))["replay"]
         cat = doc["script"]["cat"]
@@ -36,7 +36,7 @@ def run(ck):
         finish(ck, cat, out)
         if ck.violations:
             break
-    ck.assumptions.append("ObjectsNumber is compared with the ideal count only through the listed finding C02-objects-number (phy minus a garbage-mark counter); the garbage counter itself is not a listed counter of the property")
+    ck.assumptions.append("ObjectsNumber (phy minus a garbage-mark counter in the code) is compared with the ideal count only on histories in which every garbage mark names a stored, unmarked object and nothing was revived or container-removed; outside that class it is the listed finding C02-objects-number")
 
 
 def finish(ck, cat, out):
@@ -45,6 +45,13 @@ def finish(ck, cat, out):
         if name.startswith("C02"):
             ck.report(name, "known finding %s reached on the real shard" % name, {"cat": cat})
     if r.ok:
+        return
+    if r.kind == "invariant" and r.name == "C02_ObjectsNumberExact":
+        pos = max((vkit.stuck_position(r) or 2) - 1, 1)
+        script, k, ev = mu.script_of_event(out["events"], out["scripts"], pos)
+        ck.violation("reported ObjectsNumber differs from the number of stored unmarked objects on a history where phy minus garbage-counter is exact (catalogue %s, event %d %s): cnt=%s" % (
+            cat, k, json.dumps({x: ev[x] for x in ev if x != "v"}), ev.get("v", {}).get("cnt")),
+            {"script": script, "event_index": k, "event": {x: ev[x] for x in ev if x != "v"}, "cnt": ev.get("v", {}).get("cnt")})
         return
     if r.kind == "invariant" and r.name == "C02_CountersMatchRecount":
         pos = max((vkit.stuck_position(r) or 2) - 1, 1)
